@@ -29,6 +29,7 @@ CHECK = {
     "stop": list(SUB.keys()),
     "timeout_ms": {"quick": 1500000, "thorough": 3000000},
     "descend_extra": ["golang.org/x/sync/errgroup"],
-    "explanation": "TODO",
-    "bounds": {},
+    "explanation": "supervisor.NewSupervisor/WithStrategy/WithDirective/WithAnyErrorDirective/WithRetry/WithExponentialBackoff, Supervisor.Directive/AnyErrorDirective/Rules/Strategy/getters, PID.notifyParent, handlePanicking, handleStopDirective (with the real errgroup), handleRestartDirective, recordFault, suspendGroup, backoffDelay, suspend, doReinstate and the real actors tree (addRootNode/addNode/siblings/parent/deleteNode) are executed symbolically for ONE failure of a child in a family parent + child + 0..2 siblings. The supervisor is built by the real constructor from symbolic options (strategy, a rule present/absent with any directive for each of PanicError, PanicNilError, E1, E2, an any-error rule, WithRetry(maxRetries, timeout), WithExponentialBackoff(initial, max, resetAfter)); a reference table written in the harness predicts the rule set (defaults, any-error replaces all rules) and the lookup order (own type, else any-error, else none). The child (possibly already suspended, siblings possibly suspended, arbitrary earlier fault counters and last-fault stamps for every member) fails with an error of a case-split type; notifyParent runs, the Panicking message it tells the parent is handed to the parent's handlePanicking as dispatchOne does. Asserted: no rule -> child suspended, parent not involved; Resume -> child keeps running / is reinstated, skip-next-passivation set; Stop/Restart/Escalate -> child suspended, exactly one Panicking(parent) with directive == reference lookup, strategy, supervisor, error, failing message, address; Stop -> Shutdown on the child exactly once and on every sibling exactly once iff one-for-all, node removed from the tree; Restart -> every group member's consecutive-fault counter bumped once (reset first when its last fault is older than the window = resetAfter or else the retry timeout), budget exhausted (maxRetries>0, window>0, faults>maxRetries) -> no restart, child stays suspended, one-for-all siblings suspended; else exactly one restartChild per group member, scheduled by the parent, with delay == min(initial*2^(faults-1), max) of the failing child's count; Escalate -> one PanicSignal child->parent carrying the failing message, child stays suspended. Substituted: errorType (reflect) by a type switch over the error universe giving one name per type (same for T and *T); (*PID).Tell, (*PID).Shutdown, (*PID).restartChild by recorders; the actor system by a value exposing the real tree, NoSender and isStopping=false.",
+    "bounds": {'failures': '1 failure step from an arbitrary fault history (consecutive faults 0..6, last fault stamp any time <= now, per member)', 'family': 'parent + failing child + 0..2 siblings', 'error universe': 'PanicError, PanicNilError, AnyError (thrown), E1 (pointer receiver), E2 (value receiver, thrown by value or by pointer)', 'configuration': 'strategy x 2^5 rule presence x 4^5 directives x retry (any uint32, |timeout| < 2^40) x backoff (|initial|,|max|,|resetAfter| < 2^40)', 'quick': 'one-for-one: all 15 (siblings, error type) cases; one-for-all: siblings=0 all 5 error types, siblings=1 error types PanicError and E1', 'thorough': 'all 30 (strategy, siblings, error type) cases'},
+    "assumptions": ['sequences of several failures are covered by the arbitrary fault counters of the single step (the counters are the only state the directive logic carries between failures)', 'the restart itself (restartChild -> Restart, PreStart, retries) and Shutdown are outside (C01/C06); escalation is followed for one level (the PanicSignal told to the parent)', 'go statements and errgroup goroutines run inline; strings.EqualFold (PID.Equals) is modelled for ASCII ids', "map iteration order of the tree's descendants is insertion order"],
 }
